@@ -235,10 +235,10 @@ def relax_l(q):
 EXPLAINERS = [
     {'name': 'A', 'applies': pattern_a, 'patch': PatchA,
      'sig': lambda q: 'c03:amounts-double-counted:class-in-several-groups:policy-%s' % (q['policy'] or 'absent')},
-    {'name': 'L', 'applies': pattern_l, 'relax': relax_l,
-     'sig': lambda q: 'c03:in_tree-ignored:resourceless-group'},
     {'name': 'R', 'applies': pattern_r, 'patch': PatchR,
      'sig': lambda q: 'c03:missing:resourceless-group-without-required-or-member_of:matches-no-provider'},
+    {'name': 'L', 'applies': pattern_l, 'relax': relax_l,
+     'sig': lambda q: 'c03:in_tree-ignored:resourceless-group'},
     {'name': 'P', 'applies': pattern_p, 'patch': PatchP,
      'sig': lambda q: 'c03:missing:unsuffixed-group-on-sharing-providers-only:kept-under-one-anchor'},
     {'name': 'Q', 'applies': pattern_q, 'patch': PatchQ,
